@@ -41,7 +41,10 @@ are uninterpreted functions with exactly the facts listed in TRUSTED; every obli
     s is not below the group order is refused (AssertionError), an invalid channel key raises ValueError.  Hence, under
     the named hypotheses H1-H2 in TRUSTED, an object whose content, channel, signature or first input was changed does
     not validate.  [channel.validate]
-  * the stored envelope `Signable.to_bytes / from_bytes / clear_signature`  [channel.envelope]; the digest input layout is
+  * the stored envelope `Signable.to_bytes / from_bytes / clear_signature`, including: what from_bytes parsed re-serialises
+    (`to_message_bytes`, the bytes the digest is taken over) to exactly the message bytes that were stored, also for
+    messages carrying fields the local schema does not know (the protobuf stand-in has a wire model with an
+    uninterpreted `DiscardUnknownFields`)  [channel.envelope]; the digest input layout is
     injective in (first input, channel hash, message) resp. (address, payload, channel hash)  [channel.digest-layout-injective].
 
 Bounded stand-ins (run-time checks of the real code with real coincurve keys, never counted as proved):
@@ -53,7 +56,9 @@ Bounded stand-ins (run-time checks of the real code with real coincurve keys, ne
     [real.transaction-sign]
   * real protobuf claims signed by real channel keys: validation after serialisation and re-parsing, independent
     verification of the envelope, and every single-field / single-bit mutation (message bits, channel hash bits,
-    signature bits, other channel key, other first input, API-level content change) stops validating.  [real.channel-sign]
+    signature bits, other channel key, other first input, API-level content change) stops validating; messages that carry
+    schema-unknown fields (a newer release's claim) are signed, published, re-parsed and validate, and an unknown field
+    appended to (or removed from) a signed message stops it validating.  [real.channel-sign]
   * the recorded signatures of earlier releases (three claim / channel pairs from tests/unit/wallet/test_schema_signing.py,
     one in the 2018 legacy claim format, two with DER-wrapped channel keys) still validate, also under the independent
     verifier, and stop validating under single-bit mutations.  [legacy-vectors]
@@ -221,16 +226,6 @@ def ec_add(a, b):
     return x, (lam * (a[0] - x) - a[1]) % EC_P
 
 
-def ec_mul(k, point):
-    acc = None
-    while k:
-        if k & 1:
-            acc = ec_add(acc, point)
-        point = ec_add(point, point)
-        k >>= 1
-    return acc
-
-
 def ec_decompress(pub):
     if len(pub) != 33 or pub[0] not in (2, 3):
         return None
@@ -249,8 +244,14 @@ def py_ecdsa_verify_rs(pub, r, s, digest):
     if q is None or not (1 <= r < N and 1 <= s < N) or len(digest) != 32:
         return False
     w = pow(s, -1, N)
-    z = int.from_bytes(digest, 'big')
-    x = ec_add(ec_mul(z * w % N, EC_G), ec_mul(r * w % N, q))
+    u1, u2 = int.from_bytes(digest, 'big') * w % N, r * w % N
+    # u1*G + u2*Q by simultaneous double-and-add
+    both, x = ec_add(EC_G, q), None
+    for bit in range(255, -1, -1):
+        x = ec_add(x, x)
+        a, b = (u1 >> bit) & 1, (u2 >> bit) & 1
+        if a or b:
+            x = ec_add(x, both if a and b else (EC_G if a else q))
     return x is not None and x[0] % N == r
 
 
@@ -1409,7 +1410,7 @@ def pb_fields(data):
     return out
 
 
-def input_problems(raw, spent_scripts):
+def input_problems(raw, spent_scripts, only=None):
     """every input of the raw transaction is <sig||01> <pubkey>, the public key hashes to the hash the spent script pays to, and the
     signature verifies (independent verifier) for the independently computed SIGHASH_ALL digest"""
     problems = []
@@ -1417,6 +1418,8 @@ def input_problems(raw, spent_scripts):
     if len(ins) != len(spent_scripts):
         return ['input count differs']
     for i, (h, pos, script, seq) in enumerate(ins):
+        if only is not None and i not in only:
+            continue
         items = script_items(script)
         spent = spent_scripts[i]
         script_code = spent
@@ -1560,8 +1563,11 @@ def rich_claim(kind):
 def signable_object(kind):
     if kind.endswith('+unknown'):
         # the same object re-built from serialised bytes that carry two extra fields (what a newer release would publish)
+        # (parsed by the protobuf library itself, not by the repository's from_bytes, which is under test further down)
         plain = signable_object(kind[:-len('+unknown')])
-        return type(plain).from_bytes(b'\x00' + plain.to_message_bytes() + UNKNOWN_FIELDS)
+        newer = type(plain)()
+        newer.message.ParseFromString(plain.to_message_bytes() + UNKNOWN_FIELDS)
+        return newer
     if kind == 'support':
         s = Support()
         s.comment = 'well done'
@@ -1725,8 +1731,8 @@ class RealTransactionSign:
                 # negative control: the signatures commit to the outputs
                 version, ins, outs_, locktime = parse_tx(raw)
                 tampered = enc_tx(version, ins, [(outs_[0][0] ^ 1, outs_[0][1])] + outs_[1:], locktime)
-                if len(input_problems(tampered, spent)) != len(ins):
-                    problems.append('negative control: a changed output amount is not noticed by every input signature')
+                if len(input_problems(tampered, spent, only=[case % len(ins)])) != 1:
+                    problems.append('negative control: a changed output amount is not noticed by the input signature')
                 await tx.sign([a, b])                                   # history: scripts of an earlier signing are in place
                 if bytes(tx.raw) != raw:                                # (deterministic nonces: normally the very same bytes)
                     problems += judge('re-signed')[0]
